@@ -192,6 +192,112 @@ def replay_crash(eng, d):
         print("reproduced: %s" % fails[0][1].msg[:300]); print("VIOLATION property=%s replay=%s" % (eng.pid, d.get("path", ""))); return 1
     print("not reproduced"); return 0
 
+def golden_diff(eng):
+    gh = os.path.join(ROOT, "golden", "golden.hist"); go = os.path.join(ROOT, "golden", "golden.obs")
+    frozen = open(go, encoding="latin-1").read().split("\n")
+    hist = open(gh).read().split("\n")
+    p = subprocess.run("%s run < %s" % (eng.go_bin, gh), shell=True, stdout=subprocess.PIPE, stderr=subprocess.PIPE, timeout=1200)
+    impl = p.stdout.decode("latin-1").split("\n")
+    p = subprocess.run("%s < %s" % (os.path.join(ROOT, "ocaml", "driver"), gh), shell=True, stdout=subprocess.PIPE, stderr=subprocess.PIPE, timeout=1200)
+    model = p.stdout.decode("latin-1").split("\n")
+    fails = []
+    for who, got in (("implementation", impl), ("model", model)):
+        if len(got) != len(frozen):
+            fails.append(("", Fail("golden", 0, "%s produced %d lines on the reference histories, the frozen vectors have %d" % (who, len(got), len(frozen)), {"engine": "golden", "who": who})))
+            continue
+        hdr = ""
+        for i, (a, b) in enumerate(zip(got, frozen)):
+            if hist[i].startswith("#"):
+                hdr = hist[i]
+            if a != b:
+                fails.append(("", Fail("golden", i, "%s differs from the frozen reference vector at golden.hist line %d (%s; %s): got %s, frozen %s" %
+                              (who, i + 1, hdr, hist[i], a[:300], b[:300]), {"engine": "golden", "who": who, "line": i + 1, "op": hist[i], "header": hdr})))
+                break
+    return fails, len(frozen)
+
+def golden(eng):
+    """C14: the implementation and the model against the frozen reference vectors"""
+    fails, n = golden_diff(eng)
+    fails = [f for f in fails if f[1].extra["who"] == "implementation"] or fails
+    return {"fails": fails, "evaluations": n, "distinct": ["golden-line-%d" % i for i in range(0, n, 7)],
+            "coverage": {"frozen_vector_lines": n, "frozen_files": "golden/golden.hist, golden/golden.obs (produced once from the pinned commit 5b9555e; checks never regenerate them)"},
+            "samples": []}
+
+def replay_golden(eng, d):
+    fails, _ = golden_diff(eng)
+    if fails:
+        print("reproduced: %s" % fails[0][1].msg[:400]); print("VIOLATION property=%s replay=%s" % (eng.pid, d.get("path", ""))); return 1
+    print("not reproduced"); return 0
+
+def race_run(eng, text, tag):
+    ok, out, binp = eng.ck.build_go(race=True)
+    if not ok:
+        raise RuntimeError("race build failed: " + out[-1500:])
+    hp = os.path.join(BUILD, "%s-%s.hist" % (eng.pid, tag))
+    open(hp, "w").write(text)
+    env = dict(os.environ, GORACE="halt_on_error=0 exitcode=0")
+    p = subprocess.run("%s race < %s" % (binp, hp), shell=True, stdout=subprocess.PIPE, stderr=subprocess.PIPE, timeout=3000, env=env)
+    recs = [json.loads(l) for l in p.stdout.decode("latin-1").split("\n") if l.strip()]
+    err = p.stderr.decode("latin-1")
+    reports = [b for b in err.split("==================") if "DATA RACE" in b]
+    mine = [b for b in reports if "jrhy/mast" in b or "/repo/" in b]
+    return recs, mine, reports
+
+def race_fails(recs, mine, texts):
+    fails = []
+    for d in recs:
+        for p in d["problems"]:
+            fails.append((texts.get(d["hist"], ""), Fail("alone", 0, "trees used from %d goroutines do not behave as when run alone: %s" % (d["threads"], p[:400]),
+                          {"engine": "race", "history": d["hist"]})))
+            break
+    if mine:
+        fails.append(("", Fail("race", 0, "the race detector reports a data race in jrhy/mast code: " + " | ".join(l.strip() for l in mine[0].split("\n") if l.strip())[:900],
+                      {"engine": "race", "reports": len(mine)})))
+    return fails
+
+def race(eng):
+    """C11: concurrent goroutines owning independent trees over one store and one cache, under the race detector"""
+    rng = random.Random(eng.seed * 13 + 5)
+    n = 30 if eng.tier == "quick" else 300
+    hs = gen.prof_race(rng, n, eng.tier)
+    texts = {}
+    for i, h in enumerate(hs):
+        h.id = "%s-s%d-%d" % (h.id, eng.seed, i); texts[h.id] = h.text()
+    corpus = eng.corpus()
+    for c in corpus:
+        texts[c.split("\n")[0].split()[1]] = c
+    recs, mine, reports = race_run(eng, "".join(corpus) + "".join(h.text() for h in hs), "race")
+    fails = race_fails(recs, mine, texts)
+    if mine:
+        # attribute the report to a history: rerun one by one
+        for hid, t in texts.items():
+            r2, m2, _ = race_run(eng, t, "race1")
+            if m2:
+                fails = [(t, Fail("race", 0, "the race detector reports a data race in jrhy/mast code: " + " | ".join(l.strip() for l in m2[0].split("\n") if l.strip())[:900],
+                                  {"engine": "race", "history": hid}))] + [f for f in fails if f[1].tag != "race"]
+                break
+    thr = collections.Counter(d["threads"] for d in recs)
+    caches = collections.Counter(h.cache for h in hs)
+    return {"fails": fails, "evaluations": len(recs), "distinct": [d["hist"] for d in recs],
+            "coverage": {"race_histories": len(recs), "goroutines_histogram": dict(thr), "cache_modes": dict(caches),
+                         "concurrent_operations": sum(d["ops"] for d in recs), "race_reports_total": len(reports), "race_reports_in_mast": len(mine),
+                         "built_with": "go build -race"},
+            "samples": recs[:1]}
+
+def minimise_race(eng, text, fail):
+    return text, fail
+
+def replay_race(eng, d):
+    text = d["header"] + "\n" + "\n".join(d["ops"]) + "\n"
+    hit = False
+    for _ in range(5):
+        recs, mine, _ = race_run(eng, text, "replay")
+        if race_fails(recs, mine, {}):
+            hit = True; break
+    if hit:
+        print("reproduced"); print("VIOLATION property=%s replay=%s" % (eng.pid, d.get("path", ""))); return 1
+    print("not reproduced in 5 runs"); return 0
+
 def replay(eng, d):
     if d.get("engine") == "faults":
         text = d["header"] + "\n" + "\n".join(d["ops"]) + "\n"
